@@ -359,6 +359,12 @@ func (e *Element) Encode() []byte {
 // EncodeUncompressed returns the uncompressed byte encoding of the element.
 func (e *Element) EncodeUncompressed() []byte {
 	var out [elementLengthUncompressed]byte
+
+	// The point at infinity has no affine coordinates: SEC1 encodes it as the single byte 0x00, as Encode does.
+	if e.IsIdentity() {
+		return out[:elementLengthIdentity]
+	}
+
 	return e.fillUncompressed(&out)
 }
 
